@@ -103,8 +103,13 @@ func (c *ChecksumChecker) checksum(t *ast.Task) (string, error) {
 	h := xxh3.New()
 	buf := make([]byte, 128*1024)
 	for _, f := range sources {
-		// also sum the filename, so checksum changes for renaming a file
-		if _, err := io.CopyBuffer(h, strings.NewReader(filepath.Base(f)), buf); err != nil {
+		// also sum the name of the file relative to the directory of the
+		// task, so checksum changes for renaming or moving a file
+		name, err := filepath.Rel(t.Dir, f)
+		if err != nil {
+			name = f
+		}
+		if _, err := io.CopyBuffer(h, strings.NewReader(filepath.ToSlash(name)), buf); err != nil {
 			return "", err
 		}
 		f, err := os.Open(f)
